@@ -232,8 +232,10 @@ def build_receiver(d, Pm, salt=0):
             vals[1] = 0.                             # ... and one singular matrix per array
     if d['cls'] == 'Polynomial' and len(shape) >= 1 and shape[0] >= 2:
         vals[1, ..., 0] = 0.                         # one polynomial per array with a leading zero coefficient
-        if int(np.prod(shape)) >= 3:
-            vals.reshape((-1,) + item)[-1] = 0.      # ... and one whose coefficients are all zero (seeded change C07-H)
+        if int(np.prod(shape)) >= 3 and d['mask'] in ('aF', 'mix') and d.get('derivs', 'none') in ('none', 't+xy'):
+            # ... and, for some mask / derivative combinations only, one whose coefficients are all zero (seeded change C07-H; the other
+            # receivers stay without one: roots() treats "some polynomial is all zero" as a separate case, C07-A)
+            vals.reshape((-1,) + item)[-1] = 0.
     mask = make_mask(d['mask'], shape)
     if shape + item == ():
         vals = vals[()].item()
